@@ -784,11 +784,14 @@ theorem src_attack_lens_is_model :
   intro v k h
   cases v <;> simp only [durCount, Except.ok.injEq, reduceCtorEq] at h <;> exact h.symm
 
-/-- the defaults in the signatures: `take()` / `peek()` mean `n = None` (one item), `zero_pad(seq)` pads nothing -/
-theorem src_defaults_is_model :
+/-- the defaults in the signatures and what they mean in the model: `take()` / `peek()` have `n = None` — ONE item
+is read —, `zero_pad(seq)` pads nothing: the plain pass-through stage -/
+theorem src_defaults_is_model (zero : α) :
     Gen.C02.take_defaults = [("n", "None"), ("constructor", "list")] ∧
     Gen.C02.peek_defaults = Gen.C02.take_defaults ∧
-    Gen.C02.zero_pad_defaults = [("left", 0), ("right", 0)] := ⟨rfl, rfl, rfl⟩
+    Gen.C02.zero_pad_defaults = [("left", 0), ("right", 0)] ∧
+    TProg.run Gen.C02.take none = .ok .one ∧ takeModel none = .ok .one ∧
+    Gen.C02.zero_pad 0 0 zero = padS [] [] := ⟨rfl, rfl, rfl, rfl, rfl, rfl⟩
 
 /-- corollary: the closed form of `limit` holds for the regenerated stage at the regenerated count -/
 theorem src_limit_probe (n : Num) (N : Nat) (xs : List α) (K : Nat)
